@@ -258,8 +258,11 @@ def oracle_c02(case):
                 exp_cmp = [(t, a, s_) for (t, a, s_, _) in exp]
                 got_cmp = [(t, a, s_) for (t, a, s_, _) in got]
                 if exp_cmp != got_cmp:
-                    leaked = any(p.get("params") and _entered(prev, st, pid) for pid, p in story["passages"].items()) \
-                        if prev is not st else False
+                    if prev is not st:
+                        leaked = any(p.get("params") and _entered(prev, st, pid) for pid, p in story["passages"].items())
+                    else:       # the constructor's own chain: Start -> P(args) -> …
+                        leaked = any(p.get("params") and isinstance(st["vars"].get("n_" + pid), int) and st["vars"]["n_" + pid] > 0
+                                     for pid, p in story["passages"].items())
                     cls = "C02-stale-after-hook" if hooks_now else ("C02-leaked-scope" if leaked else None)
                     out.append(fail(i, f"offered top-level choices {got_cmp} but enabled ones are {exp_cmp}", cls))
         prev = st
